@@ -7,7 +7,8 @@ import Gama.Model.XmlEsc
 import Gama.Model.CovBand
 import Gama.Model.ReaderPoint
 import Gama.Model.XmlRecords
-open Gama Gama.Proto Gama.XmlEsc Gama.CovBand Gama.ReaderPoint Gama.XmlRec
+import Gama.Gen.XmlSkeleton
+open Gama Gama.Proto Gama.XmlEsc Gama.CovBand Gama.ReaderPoint Gama.XmlRec Gama.XmlDoc
 
 def unhexBytes (s : String) : Option (List UInt8) :=
   if s = "-" then some [] else
@@ -170,6 +171,18 @@ def covOf (n : Nat) (q : Array Float) (ind : Array Nat) (m2 : Float) (i j : Nat)
   let (a, b) := if a ≤ b then (a, b) else (b, a)
   m2 * q.getD ((a - 1) * n - (a - 1) * (a - 2) / 2 + (b - a)) 0
 
+/-- `D` | `S name 0|1` followed by `A attr`… | `E name` | `C` | `T` : the tokens of a real document (blank character
+    data omitted) -/
+def parseRToks : List String → List RTok → Option (List RTok)
+  | [], acc => some acc.reverse
+  | "D" :: r, acc => parseRToks r (.decl :: acc)
+  | "C" :: r, acc => parseRToks r (.comment :: acc)
+  | "T" :: r, acc => parseRToks r (.chars false :: acc)
+  | "E" :: n :: r, acc => parseRToks r (.etag n :: acc)
+  | "S" :: n :: e :: r, acc => parseRToks r (.stag n [] (e = "1") :: acc)
+  | "A" :: a :: r, .stag n as e :: acc => parseRToks r (.stag n (as ++ [a]) e :: acc)
+  | _, _ => none
+
 def step (_ : Unit) (line : String) : Unit × String :=
   match tokens line with
   | ["esc", h] =>
@@ -203,6 +216,10 @@ def step (_ : Unit) (line : String) : Unit × String :=
       | .ok st => ((), "\n".intercalate (st.out.map showPoint ++ ["end"]))
       | .error .xWithoutY => ((), "throw xWithoutY")
       | .error .conXWithoutY => ((), "throw conXWithoutY")
+    | none => ((), "bad-op")
+  | "doc" :: rest =>
+    match parseRToks rest [] with
+    | some toks => ((), s!"accepts {b01 (accepts Gama.Gen.XmlSkeleton.writeSk toks)} {toks.length}")
     | none => ((), "bad-op")
   | "wsec" :: sect :: ys :: rest =>
     match sectOf sect, float? ys, parseLPoints rest with
